@@ -22,7 +22,13 @@ func errValuesOf(c *ssa.Call) (vals []ssa.Value, allocs []*ssa.Alloc) {
 			errVals = append(errVals, ex)
 		}
 	}
-	for _, ev := range errVals {
+	seen := map[ssa.Value]bool{}
+	var add func(ev ssa.Value, d int)
+	add = func(ev ssa.Value, d int) {
+		if seen[ev] || d > 3 {
+			return
+		}
+		seen[ev] = true
 		vals = append(vals, ev)
 		for _, r := range *ev.Referrers() {
 			if st, ok := r.(*ssa.Store); ok && st.Val == ev {
@@ -30,7 +36,15 @@ func errValuesOf(c *ssa.Call) (vals []ssa.Value, allocs []*ssa.Alloc) {
 					allocs = append(allocs, a)
 				}
 			}
+			// the error variable after a merge (it may have been replaced on one branch; a nil test of the merged
+			// variable still is the nil test of this call's error on the path that did not replace it)
+			if phi, ok := r.(*ssa.Phi); ok {
+				add(phi, d+1)
+			}
 		}
+	}
+	for _, ev := range errVals {
+		add(ev, 0)
 	}
 	return
 }
